@@ -3,5 +3,6 @@ CONSTANTS Keys = {1, 2}
           Datas = {1, 2}
           Zero = {2}
           D = 1
+          GAttrs = {"ok", "expired", "negttl"}
 INVARIANTS Emit
 CHECK_DEADLOCK FALSE
